@@ -88,6 +88,11 @@ class NonConformance(Exception):
     """the library built something else than the op's meaning (C03/C18 territory)"""
 
 
+PROV_REF_LOCALS = {"entity", "activity", "trigger", "informed", "informant", "starter", "ender", "agent", "plan",
+                   "delegate", "responsible", "generatedEntity", "usedEntity", "generation", "usage", "specificEntity",
+                   "generalEntity", "alternate1", "alternate2", "bundle", "influencee", "influencer", "collection"}
+
+
 class RefScope(object):
     __slots__ = ("bind", "alias", "reg", "default", "records", "primary")
 
@@ -496,6 +501,13 @@ def apply(st, op, values=None):
         mattrs = list(mrec[2])
         if (auri, vo) in mattrs:
             raise NotEnabled("attribute-value-already-present")
+        if auri.startswith(PROV_URI) and (auri[len(PROV_URI):] in PROV_REF_LOCALS or auri[len(PROV_URI):] in TIME_ATTRS):
+            # a PROV-DM argument name used as an additional attribute (of a record kind that may not even have
+            # that argument): single-valued, a reference resp. a time
+            if any(a2 == auri for a2, _ in mattrs):
+                raise NotEnabled("prov-argument-already-set")
+            if vo[0] != ("dt" if auri[len(PROV_URI):] in TIME_ATTRS else "qn"):
+                raise NotEnabled("value-kind-not-accepted-for-a-prov-argument")
         for (a2, v2) in mattrs:
             if a2 == auri and val.py_equal_other_kind(v2, vo):
                 raise NotEnabled("J1-equal-different-kind")
@@ -551,6 +563,20 @@ def apply(st, op, values=None):
         model.use_name(scope, name)
         st.ref = model
         st.container(scope).get_record(st.spell(name))
+    elif kind == "getx":
+        # a lookup of a name that may denote nothing in this scope (then it finds nothing and changes nothing)
+        _, scope, name = op
+        enabled_scope(st, scope)
+        model = _fork(ref)
+        try:
+            model.use_name(scope, name)
+            st.ref = model
+        except NotEnabled as e:
+            if str(e) not in ("prefix-undeclared", "no-default", "uri-not-coverable"):
+                raise
+        got = st.container(scope).get_record(st.spell(name))
+        if got is not None and not isinstance(got, list):
+            raise NonConformance("get_record returned %r" % (got,))
     elif kind == "addb":
         # a bundle built on its own (identifier given as a QualifiedName) attached with add_bundle()
         _, slot, name = op
@@ -766,7 +792,7 @@ def render(alphabet, hist, values=None):
             lines.append("r.add_asserted_type(%s)" % values[op[1]].source)
         elif k == "settime":
             lines.append("r.set_time(%s=%r)" % ("startTime" if op[1] == "start" else "endTime", TIMES[op[2]]))
-        elif k == "get":
+        elif k in ("get", "getx"):
             lines.append("c[%r].get_record(%s)" % (op[1], sp(op[2])))
         elif k == "addb":
             lines.append("from prov.model import ProvBundle; c[%r] = ProvBundle(identifier=%s); d.add_bundle(c[%r])" % (
